@@ -98,6 +98,63 @@ void h_zck_write(void) {
     V_COVER(r == 0);
 }
 
+
+/* ---- comp_init, write mode: effective chunk bounds (C16), termination precondition and dictionary entry (C01) ---- */
+void h_comp_init_w(void) {
+    IN_w in = nondet_IN_w();
+    zckCtx *zck = mk_writer(&in);
+    V_ASSUME(zck->error_state >= 0 && zck->error_state <= 2);
+    g_track = 0; g_next = NULL;
+    int min0 = zck->chunk_min_size, max0 = zck->chunk_max_size, tfd = zck->temp_fd, nw = zck->no_write;
+    size_t cnt0 = zck->index.count;
+    bool r = comp_init(zck);
+    V_COVER(r && zck->manual_chunk == 0 && in.dict_live && nw == 0 && tfd > 0);
+    V_COVER(r && zck->manual_chunk != 0 && !in.dict_live);
+    V_COVER(r && zck->manual_chunk == 0 && min0 == 0 && max0 == 0);
+    V_COVER(r && zck->manual_chunk == 0 && min0 == 100 && max0 == 100000);
+    V_COVER(!r && in.any.error_state == 0 && in.any.comp.started == 0);
+}
+
+
+/* ---- comp_init, write mode, plain CBMC lemma unit (real body executed; no dictionary): the effective
+ * chunk bounds and the dictionary entry.  The contract unit comp_init_write states the same clauses but does
+ * not finish in the quick budget (undecided), so the two clauses the writer's termination and the
+ * reader's "at least one entry" rest on are also checked here with over-approximating stand-in bodies:
+ * init hook = any verdict; index_finish_chunk = any verdict, one more entry on success. ------------- */
+#ifdef VERIF_PLAIN_STUBS
+bool nondet_bool(void);
+static bool plain_init(zckCtx *zck, zckComp *comp) { return nondet_bool(); }
+bool index_finish_chunk(zckCtx *zck) { if(nondet_bool()) return false; zck->index.count += 1; return true; }
+typedef struct { zckCtx any; } IN_ci;
+V_INPUT(IN_ci)
+void h_comp_init_bounds(void) {
+    IN_ci in = nondet_IN_ci();
+    zckCtx *zck = malloc(sizeof(*zck));
+    V_ASSUME(zck != NULL);
+    *zck = in.any;
+    zck->comp.init = plain_init; zck->comp.dict = NULL; zck->comp.dict_size = 0; zck->mode = ZCK_MODE_WRITE;
+    V_ASSUME(zck->error_state >= 0 && zck->error_state <= 2);
+    V_ASSUME(OPT_WF(zck));                       /* what comp_ioption's checks maintain */
+    int min0 = zck->chunk_min_size, max0 = zck->chunk_max_size, tfd = zck->temp_fd, nw = zck->no_write;
+    size_t cnt0 = zck->index.count;
+    bool r = comp_init(zck);
+    if(r) {
+        V_ASSERT(zck->chunk_min_size >= 1 && zck->chunk_min_size <= zck->chunk_max_size, "C01,C16.comp_init.min_le_max");
+        V_ASSERT((min0 == 0 || zck->chunk_min_size == min0) && (max0 == 0 || zck->chunk_max_size == max0), "C16.comp_init.configured_sizes_kept");
+        if(zck->manual_chunk == 0) {
+            V_ASSERT(zck->buzhash_width == SPEC_BZ_WIDTH && zck->buzhash_bitmask == SPEC_BZ_MASK, "C16.comp_init.window_and_mask_pinned");
+            V_ASSERT(zck->chunk_auto_min == SPEC_AUTO_MIN(zck->chunk_min_size, zck->chunk_max_size) && zck->chunk_auto_max == SPEC_AUTO_MAX(zck->chunk_min_size, zck->chunk_max_size), "C16.comp_init.effective_bounds_are_quarter_and_fourfold_average_clamped");
+            V_ASSERT(zck->chunk_auto_min <= zck->chunk_auto_max, "C01,C16.comp_init.effective_min_not_above_effective_max");
+        }
+        V_ASSERT(zck->index.count == cnt0 + 1, "C01.comp_init.dictionary_entry_exists_whatever_the_descriptor_numbers");
+        V_ASSERT(zck->comp.started != 0, "C03.comp_init.started");
+    }
+    V_COVER(r && zck->manual_chunk == 0 && min0 == 0 && max0 == 0);
+    V_COVER(r && zck->manual_chunk == 0 && min0 == 100 && max0 == 100000 && tfd == 5);
+    V_COVER(r && zck->manual_chunk != 0); V_COVER(!r && in.any.error_state == 0 && in.any.comp.started == 0);
+}
+#endif
+
 #ifdef VERIF_NATIVE
 #include "replay_in.h"
 #endif
